@@ -1401,6 +1401,20 @@ class Evaluator(Run):
                 for b, t in zip(bases, node.targets):
                     self.set_field(b, t.attr, fresh(T.Opaque("untracked"), t.attr))
                 return
+        if len(node.targets) == 1 and isinstance(node.targets[0], ast.Tuple) and isinstance(node.value, ast.Tuple) \
+                and len(node.targets[0].elts) == len(node.value.elts) and not any(isinstance(e, ast.Starred) for e in node.targets[0].elts + node.value.elts):
+            # `a, b = x, y`: every right-hand side is evaluated first (each with its own target as type hint), then the targets are bound in order
+            vals = []
+            for t, e in zip(node.targets[0].elts, node.value.elts):
+                fake = ast.Assign(targets=[t], value=e, lineno=node.lineno)
+                self.ctx.push_hint(fake, frame)
+                try:
+                    vals.append(self.ev(e, frame))
+                finally:
+                    self.ctx.pop_hint()
+            for t, v in zip(node.targets[0].elts, vals):
+                self.assign(t, v, frame)
+            return
         if isinstance(node.value, ast.Yield):
             v = self.ex_yield(node.value, frame)
         else:
